@@ -47,8 +47,10 @@ def mutate(src, rng, n=1, kinds=None):
             a, b = toks[i], toks[i + 1]
             src = src[:a.start()] + b.group(0) + src[a.end():b.start()] + a.group(0) + src[b.end():]
         elif k == 'ins_bracket':
-            i = rng.randrange(len(src) + 1)
-            src = src[:i] + rng.choice(BRACKETS) + src[i:]
+            # at the end of a line, separated by a blank: an insertion inside a token only manufactures new (garbage) tokens
+            ends = [m.start() for m in re.finditer(rb'\n', src)] or [len(src)]
+            i = rng.choice(ends)
+            src = src[:i] + b' ' + rng.choice(BRACKETS) + src[i:]
         elif k == 'del_bracket' and toks:
             bs = [m for m in toks if m.group(0) in BRACKETS]
             if bs:
